@@ -79,7 +79,7 @@ def runLoop (stations : List String) (early : Bool) (sessions : List EventCore.S
   let mut err : Json := Json.null
   for _ in [0:limit] do
     if !(EventCore.guard g.core) then break
-    match bodyGP EventCore.heapQ (stochasticNet cs) (stochasticPost full) cfg (fun _ => none) (fun _ => none) g with
+    match EventCore.bodyGP EventCore.heapQ (stochasticNet cs) (stochasticPost full) cfg (fun _ => none) (fun _ => none) g with
     | (g', none) =>
       g := g'
       outs := outs.push (jSnap (g.net.snapshot ids))
